@@ -79,6 +79,7 @@ type Conn struct {
 	rdl, wdl   time.Time
 	local, remote net.Addr
 	CloseStep  uint64
+	TLS        bool // accepted on a TLS binding
 }
 
 type simAddr struct{ network, addr string }
@@ -199,6 +200,11 @@ func (c *Conn) Close() error {
 	c.CloseStep = c.s.Step
 	c.s.Version++
 	Yield("net.Conn.Close")
+	if c.TLS && c.peerReset {
+		// tls.Conn.Close sends close_notify first; on a connection the peer has reset that write
+		// fails, and Close reports it (the socket is closed all the same)
+		return &net.OpError{Op: "write", Net: "tcp", Err: os.NewSyscallError("write", syscall.EPIPE)}
+	}
 	return nil
 }
 func (c *Conn) LocalAddr() net.Addr  { return c.local }
@@ -420,6 +426,7 @@ type HTTPBinding struct {
 	Handler http.Handler
 	closed  bool
 	active  int
+	TLS     bool // served with RunTLS
 }
 
 func (n *netState) bind(addr string, srv *http.Server, h http.Handler) (*HTTPBinding, error) {
@@ -510,8 +517,14 @@ func HTTPClose(srv *http.Server) error {
 	return nil
 }
 
-// ServeForever is what (*gin.Engine).Run / RunTLS are rewritten to.
-func ServeForever(h http.Handler, addr string) error {
+// ServeForeverTLS is what (*gin.Engine).RunTLS is rewritten to: connections accepted on this
+// binding behave like tls.Conn where that differs from a plain socket (see Conn.Close).
+func ServeForeverTLS(h http.Handler, addr string) error { return serveForever(h, addr, true) }
+
+// ServeForever is what (*gin.Engine).Run is rewritten to.
+func ServeForever(h http.Handler, addr string) error { return serveForever(h, addr, false) }
+
+func serveForever(h http.Handler, addr string, tls bool) error {
 	s := cur
 	if s == nil {
 		return errors.New("simrt: no simulation")
@@ -521,6 +534,7 @@ func ServeForever(h http.Handler, addr string) error {
 	if err != nil {
 		return err
 	}
+	b.TLS = tls
 	Block("gin.Engine.Run", "serving "+addr, func() bool { return b.closed || s.Dead })
 	return http.ErrServerClosed
 }
@@ -665,6 +679,7 @@ func (s *Sim) DialUpgrade(port string, req *http.Request) *HTTPCall {
 		return call
 	}
 	c := s.newConn("ws:"+req.URL.Path, b.Addr, req.RemoteAddr)
+	c.TLS = b.TLS
 	call.Conn = c
 	call.Rec.hijackConn = c
 	b.active++
